@@ -154,6 +154,11 @@ func AdmittingUnknown(r *core.Rand, part cty.Value, refined, allowDynamic bool) 
 		return cty.DynamicVal
 	}
 	u := cty.UnknownVal(ty)
+	if refined && part.IsKnown() && part.IsNull() && r.Chance(1, 2) {
+		// A null is admitted by any unknown that is not refined as non-null:
+		// bounds, prefixes and length bounds speak only about the non-null case.
+		return nullableRefined(r, u)
+	}
 	if !refined || !part.IsKnown() || part.IsNull() || r.Chance(1, 4) {
 		return u
 	}
@@ -270,4 +275,39 @@ func boundNear(r *core.Rand, f *big.Float, dir int) (cty.Value, bool) {
 		}
 		return same(), true
 	}
+}
+
+// nullableRefined refines the unknown u with arbitrary bounds / prefix / length
+// bounds but never with not-null, so that the result still admits a null.
+func nullableRefined(r *core.Rand, u cty.Value) cty.Value {
+	ty := u.Type()
+	b := u.Refine()
+	switch {
+	case ty == cty.Number:
+		lo := int64(r.Intn(30) - 10)
+		hi := lo + int64(r.Intn(8))
+		switch r.Intn(3) {
+		case 0:
+			b = b.NumberRangeLowerBound(cty.NumberIntVal(lo), r.Bool())
+		case 1:
+			b = b.NumberRangeUpperBound(cty.NumberIntVal(hi), r.Bool())
+		default:
+			b = b.NumberRangeLowerBound(cty.NumberIntVal(lo), true).NumberRangeUpperBound(cty.NumberIntVal(hi), true)
+		}
+	case ty == cty.String:
+		b = b.StringPrefixFull([]string{"foo", "a", "\u00e9", "x,y"}[r.Intn(4)])
+	case ty.IsCollectionType():
+		lo := r.Intn(3)
+		switch r.Intn(3) {
+		case 0:
+			b = b.CollectionLengthLowerBound(lo)
+		case 1:
+			b = b.CollectionLengthUpperBound(lo + r.Intn(3))
+		default:
+			b = b.CollectionLengthLowerBound(lo).CollectionLengthUpperBound(lo + 1 + r.Intn(3))
+		}
+	default:
+		return u
+	}
+	return b.NewValue()
 }
